@@ -106,6 +106,16 @@ def guard_dnf(node, stop=None):
     return out
 
 
+def holds_on_every_path(node, name, stop=None):
+    """does the flag `name` hold (is truthy) on every path to `node`?  Read from the disjunctive normal form of all guards, so that
+    `if name:` around the node, `if not name: return` before it, and `if not name: ... else: <node>` are the same fact."""
+    try:
+        d = guard_dnf(node, stop)
+    except Inconclusive:
+        return False
+    return bool(d) and all(any(isinstance(a, ast.Name) and a.id == name and pol for a, pol in conj) for conj in d)
+
+
 def guards_of(node, stop=None):
     """the conditions under which `node` runs: the if/while/ifexp ancestors (innermost first) and the negated tests of earlier
     sibling guard clauses `if c: return/raise/continue/break` (a guard clause and a nested if are the same control structure)"""
@@ -1049,3 +1059,122 @@ def truthiness_tests(e):
                     if is_value(v):
                         out.append((n, v))
     return out
+
+
+# ---------------------------------------------------------------------------------------------------------------------
+# partial evaluation of table look-ups and comprehensions over literal tables
+
+def peval(expr, env=None):
+    """Partially evaluate an expression under bindings of names to literals: constant subscripts of dict / tuple / list displays,
+    bool() / tuple() / list() of literals, conditional expressions with a decided test, comparisons of literals, and comprehensions
+    over a literal sequence are carried out; everything else stays as it is (with its parts evaluated).  No repository code runs."""
+    env = dict(env or {})
+
+    def lit(e):
+        v = const_value(e)
+        return v is not NotImplemented, v
+
+    class PE(ast.NodeTransformer):
+        def visit_Name(self, n):
+            if isinstance(n.ctx, ast.Load) and n.id in env:
+                return sym.clone(env[n.id])
+            return n
+
+        def visit_IfExp(self, n):
+            t = self.visit(n.test)
+            ok, v = lit(t)
+            if ok:
+                return self.visit(n.body if v else n.orelse)
+            return ast.IfExp(test=t, body=self.visit(n.body), orelse=self.visit(n.orelse))
+
+        def visit_UnaryOp(self, n):
+            self.generic_visit(n)
+            if isinstance(n.op, ast.Not):
+                ok, v = lit(n.operand)
+                if ok:
+                    return ast.Constant(value=not v)
+            return n
+
+        def visit_Compare(self, n):
+            self.generic_visit(n)
+            if len(n.ops) == 1:
+                (ok1, a), (ok2, b) = lit(n.left), lit(n.comparators[0])
+                if ok1 and ok2:
+                    op = n.ops[0]
+                    if isinstance(op, ast.Eq):
+                        return ast.Constant(value=a == b)
+                    if isinstance(op, ast.NotEq):
+                        return ast.Constant(value=a != b)
+                    if isinstance(op, ast.Is):
+                        return ast.Constant(value=a is b)
+                    if isinstance(op, ast.IsNot):
+                        return ast.Constant(value=a is not b)
+            return n
+
+        def visit_Call(self, n):
+            self.generic_visit(n)
+            nm = n.func.id if isinstance(n.func, ast.Name) else None
+            nm = nm.split('.')[-1] if nm else None
+            if nm == 'bool' and len(n.args) == 1 and not n.keywords:
+                ok, v = lit(n.args[0])
+                if ok:
+                    return ast.Constant(value=bool(v))
+            if nm in ('tuple', 'list') and len(n.args) == 1 and not n.keywords and isinstance(n.args[0], (ast.Tuple, ast.List)):
+                return (ast.Tuple if nm == 'tuple' else ast.List)(elts=n.args[0].elts, ctx=ast.Load())
+            return n
+
+        def visit_Subscript(self, n):
+            self.generic_visit(n)
+            ok, k = lit(n.slice)
+            if ok and isinstance(n.value, ast.Dict):
+                for kk, vv in zip(n.value.keys, n.value.values):
+                    if kk is not None:
+                        ok2, k2 = lit(kk)
+                        if ok2 and k2 == k and type(k2) is type(k):
+                            return vv
+            if ok and isinstance(k, int) and not isinstance(k, bool) and isinstance(n.value, (ast.Tuple, ast.List)) and -len(n.value.elts) <= k < len(n.value.elts):
+                return n.value.elts[k]
+            return n
+
+        def _comp(self, n, elt_fields):
+            if len(n.generators) != 1 or n.generators[0].ifs:
+                self.generic_visit(n)
+                return n
+            g = n.generators[0]
+            it = self.visit(g.iter)
+
+            def residual():
+                g.iter = it
+                for f_ in elt_fields:
+                    setattr(n, f_, self.visit(getattr(n, f_)))
+                return n
+            if not isinstance(it, (ast.Tuple, ast.List)) or len(it.elts) > 32:
+                return residual()
+            tg = g.target
+            rows = []
+            for e in it.elts:
+                b = {}
+                if isinstance(tg, ast.Name):
+                    b[tg.id] = e
+                elif isinstance(tg, (ast.Tuple, ast.List)) and isinstance(e, (ast.Tuple, ast.List)) and len(e.elts) == len(tg.elts) \
+                        and all(isinstance(t, ast.Name) for t in tg.elts):
+                    b = {t.id: x for t, x in zip(tg.elts, e.elts)}
+                else:
+                    return residual()
+                rows.append(tuple(peval(sym.clone(getattr(n, f_)), dict(env, **b)) for f_ in elt_fields))
+            return rows
+
+        def visit_ListComp(self, n):
+            r = self._comp(n, ('elt',))
+            return ast.List(elts=[x[0] for x in r], ctx=ast.Load()) if isinstance(r, list) else r
+
+        def visit_GeneratorExp(self, n):
+            r = self._comp(n, ('elt',))
+            return ast.List(elts=[x[0] for x in r], ctx=ast.Load()) if isinstance(r, list) else r
+
+        def visit_DictComp(self, n):
+            r = self._comp(n, ('key', 'value'))
+            return ast.Dict(keys=[x[0] for x in r], values=[x[1] for x in r]) if isinstance(r, list) else r
+    out = PE().visit(sym.clone(expr))
+    # a second round lets `tuple([...])` of a freshly unrolled comprehension fold
+    return PE().visit(out)
